@@ -319,7 +319,7 @@ def _structural(clause):
             return clause(a, r)
         try:
             return clause(a, r)
-        except (IndexError, KeyError, AttributeError, TypeError):
+        except (IndexError, KeyError, AttributeError, TypeError, __import__('z3').Z3Exception):
             return False
     return wrapped
 
@@ -979,6 +979,22 @@ BOUNDED = [Bounded("restructuring_and_sequences", _bounded_restructure)]
 
 CONTRACTS = [add_c, sub_c, neg_c, copy_deep, copy_shallow, bandpass_c, multiply_c, multiply_inplace, as1d_c, bandpass_then_fillna, copy_then_fillna] + NEW
 TRUSTED = ["effect model of xarray in pyvc/models/xr.py: DataArray objects are immutable buffers (a store through .values is refused as unsupported), Dataset.__setitem__ mutates only the mapping it is called on, "
-           "copy(deep=True) allocates new buffers, copy()/assign share them, every arithmetic / selection method returns a new DataArray"]
+           "copy(deep=True) allocates new buffers, copy()/assign share them, every arithmetic / selection method returns a new DataArray",
+           "xarray.DataArray.isel / __getitem__ with an integer or a slice (step 1) on a dimension: integer drops the dimension and keeps its coordinate value as a scalar coordinate, slice keeps members lo..hi-1 in order with "
+           "the coordinate sliced alike; the result is a NEW DataArray object (real xarray returns a view of the operand's buffer: no disjointness is claimed for selections, only that the call writes nothing)",
+           "xarray.Dataset.assign collects dimension and scalar coordinates of the assigned variables; Dataset.dims = dimension names of the variables; Dataset.reset_coords(name) turns a scalar (non-index) coordinate into a data variable, ValueError for an index coordinate",
+           "xarray.DataArray.mean / sum / std(dim, skipna=False): sum resp. sum/n resp. sqrt(mean((x-mean)^2)) (ddof=0) over the named dimension, missing iff a contribution is missing (mean/std: or the dimension is empty)",
+           "xarray.concat(list of DataArrays of one layout on identical dimension coordinates, dim=new name): new leading dimension, member k = k-th argument, the arguments' scalar coordinate `dim` becomes the new dimension coordinate "
+           "(differing coordinates / concatenation along an existing dimension: unsupported -> undecided)",
+           "xarray.Dataset[name] = list of scalars: dimension coordinate `name`; Dataset[name] = DataArray brings its dimension coordinates along; an assignment that would re-align the variable to an index set from a list "
+           "(coordinate values not identical) is unsupported -> undecided (xarray re-orders / NaN-fills there)",
+           "pyvc/models/npshape.py: np.prod(tuple of ints); np.unravel_index(ind, (n1, n2)) = (ind // n2, ind % n2) with the in-range obligation; ndarray.reshape merging one or two leading axes in C order "
+           "(new[q, r] = old[q // n2, q % n2, r]; sizes must provably agree)",
+           "iteration over an instance of a repository class that defines __iter__ iterates the value returned by its __iter__"]
 EXPLANATION = ("frame conditions proved on a symbolic heap: operands keep their Dataset object, its variable bindings and buffers, nothing is assigned into them, results are new objects around new "
-               "mappings; deep copies share no buffer; in-place multiply writes only self's density; an in-place change of a result does not reach the operand")
+               "mappings; deep copies share no buffer; in-place multiply writes only self's density; an in-place change of a result does not reach the operand. "
+               "Extension: the same frame clause plus VALUE clauses for isel (integer / slice on the leading dimension), __getitem__ (leading integer / slice, frequency slice), mean / sum / std over the leading dimension "
+               "(per variable: value and missing flag; time = mean time), flatten on an n1 x n2 (time x latitude) grid with symbolic sizes (count n1*n2; flattened member q = grid member (q // n2, q % n2) and grid member (i, j) = "
+               "flattened member i*n2+j for density, moments, depth, longitude, time, latitude) and concatenate_spectra of N = 2, 3 single spectra with their own time / position / depth followed by isel(time=k): "
+               "returns input k, every input unchanged. Selections are views in real xarray: 'unchanged operand, new object' is claimed, disjointness is not. "
+               "Still bounded only: sel (nearest-label lookup), where / drop_invalid (boolean filters with reindex_like), create_1d/2d_spectrum, netCDF round trip, random operation sequences")
